@@ -4,6 +4,7 @@ Property theorems only; helper lemmas live in Proofs/Creation.lean.  The box / i
 regenerated from trimesh/resources/creation.json on every run (Generated/C15Tables.lean).
 -/
 import TrimeshVerif.Proofs.Creation
+import TrimeshVerif.Proofs.RevolveGrid
 namespace TV.C15
 open TV.Query TV.Creation
 
@@ -70,5 +71,19 @@ theorem C15_box_bounds (ext : P) (h1 : 0 ≤ ext.1) (h2 : 0 ≤ ext.2.1) (h3 : 0
 theorem C15_icosphere_closed (mid : Nat → Nat → Nat) (hsym : ∀ a b, mid a b = mid b a) (n : Nat) :
     TV.Remesh.Closed ((TV.Remesh.subdivideFaces mid)^[n] TV.Generated.icoFaces) := by
   exact icosphere_closed mid hsym n
+
+/-- **a full-turn revolve of an axis-to-axis profile is closed and consistently wound for every number of
+    profile points and every number of slices**: after the two axis points are merged, every directed edge of
+    the faces `revolve` keeps is matched by its reverse -/
+theorem C15_revolve_closed (per slices : Nat) (hper : 3 ≤ per) (hs : 3 ≤ slices) :
+    TV.RevolveGrid.Closed (TV.RevolveGrid.revolveSurface per slices) :=
+  TV.RevolveGrid.revolve_closed per slices hper hs
+
+/-- the faces of that theorem are exactly what the index arithmetic of `revolve` produces when the
+    zero-area triangles at the axis (and the wrap-around quad) are dropped -/
+theorem C15_revolve_grid_is_code (per slices : Nat) (hper : 3 ≤ per) (hs : 1 ≤ slices) :
+    TV.RevolveGrid.gridFaces per slices =
+      revolveFaces per slices (per * slices) (TV.RevolveGrid.axisKeep per) :=
+  TV.RevolveGrid.grid_eq_revolveFaces per slices hper hs
 
 end TV.C15
